@@ -75,3 +75,26 @@ func exactRatio(v slip.Object) (r *slip.Ratio) {
 	}
 	return
 }
+
+// checkDivisor raises a division-by-zero error if the normalized divisor is
+// zero.
+func checkDivisor(s *slip.Scope, depth int, f slip.Object, args slip.List, div slip.Object) {
+	var zero bool
+	switch td := div.(type) {
+	case slip.Fixnum:
+		zero = td == 0
+	case slip.SingleFloat:
+		zero = td == 0.0
+	case slip.DoubleFloat:
+		zero = td == 0.0
+	case *slip.LongFloat:
+		zero = (*big.Float)(td).Sign() == 0
+	case *slip.Bignum:
+		zero = (*big.Int)(td).Sign() == 0
+	case *slip.Ratio:
+		zero = (*big.Rat)(td).Sign() == 0
+	}
+	if zero {
+		slip.DivisionByZeroPanic(s, depth, f, args, "divide by zero")
+	}
+}
